@@ -330,6 +330,41 @@ def evaluate_sweep(case, wd):
     return Outcome("ok", case_id=h, nontrivial=nt > 0, classes=classes, sample={"descs": descs, "pairs_compared": npairs, "pairs_that_must_differ": nt})
 
 
+def _object_signature(t):
+    """UFL's own (renumbered) signature of the object a spec describes - two specs that differ only in unused spaces, coefficients or
+    constants describe the same object and may share a name."""
+    import ufl
+    import ufl.corealg.traversal
+
+    try:
+        b = specs.build(strategies.strip_meta(t))
+        if t.get("kind") == "expr":
+            expr, pts = b.obj
+            from ufl.algorithms.renumbering import renumber_indices
+            from ufl.algorithms.signature import compute_expression_hashdata, compute_terminal_hashdata  # noqa: F401
+
+            e2 = renumber_indices(expr)
+            # terminals numbered in order of first appearance (what "the same expression" means independently of UFL counters)
+            seen = {}
+            parts = []
+            for node in ufl.corealg.traversal.unique_pre_traversal(e2):
+                if node._ufl_is_terminal_:
+                    if isinstance(node, (ufl.classes.Coefficient, ufl.classes.Constant, ufl.classes.Argument)):
+                        k = seen.setdefault(node, len(seen))
+                        sp = node.ufl_function_space().ufl_element() if hasattr(node, "ufl_function_space") else node.ufl_shape
+                        parts.append(f"{type(node).__name__}#{k}:{sp!r}")
+                    elif isinstance(node, ufl.classes.GeometricQuantity):
+                        parts.append(type(node).__name__)
+                    else:
+                        parts.append(repr(node))
+                else:
+                    parts.append(type(node).__name__ + str(len(node.ufl_operands)))
+            return "E" + "|".join(parts) + repr((pts.shape, pts.tobytes()))
+        return "F" + b.form.signature()
+    except BaseException:  # noqa: BLE001 - cannot decide: treat as distinct objects
+        return "S" + spec_hash(t)
+
+
 def normalise(code):
     return [re.sub(r"[0-9a-f]{40}", "H", c) for c in code]
 
@@ -359,7 +394,7 @@ def evaluate(case, wd):
         if not IDENT.match(n):
             return Outcome("violation", case_id=h, classes=classes, key=f"{PROP}:ident:{h}", bucket=f"{PROP}:identifier", what=f"name {n!r} is not a valid C identifier", replay=replay)
     if len(set(names)) != len(names):
-        same = len({spec_hash(t) for t in case["r"]["targets"]}) < len(case["r"]["targets"])
+        same = len({_object_signature(t) for t in case["r"]["targets"]}) < len(case["r"]["targets"])
         if not same:
             return Outcome("violation", case_id=h, classes=classes, key=f"{PROP}:dup:{h}", bucket=f"{PROP}:duplicate-object-names",
                            what=f"two different objects of one module share the name {names}", replay=replay)
